@@ -324,6 +324,10 @@ def fam_large():
     acts = " ".join("|> { e%d }" % i for i in range(24))
     out.append("a %s, b %s" % (acts, acts))
     out.append(", ".join("i%d %s" % (i, " ".join("^@ { z%d_%d }, { y%d_%d }" % (i, j, i, j) for j in range(13))) for i in range(12)))
+    # three-digit indices in every name position: 130 branches, 104 steps, 104 hoisted operands in one step
+    out.append(", ".join("i%d ~|> { c%d }" % (i, i) for i in range(130)))
+    out.append("a " + " ".join("~|> { s%d }" % i for i in range(104)) + ", b")
+    out.append("a " + " ".join("|> { e%d }" % i for i in range(104)))
     return out
 
 
